@@ -31,6 +31,8 @@ CLAIMS = {
  "C10": ("property-based testing of the periodic four-call sequence with a geometry-sensitive exact kernel against the closed-form image sum over the reported repetition interval",
          "For generated periodic trees and extra levels -1..5 every particle must hold exactly the generating-function value of all images in the reported interval (each once, displaced by whole boxes), "
          "for single and target/source trees, sequential and OpenMP (mock schedules).", "3/C10"),
+ "C11": ("bounded-exhaustive enumeration + property-based testing of the index API against definitional coordinates/lists (model-based differential), metamorphic pair property for the upper-half filter",
+         "Every cell of small trees exhaustively and random cells up to 60-bit indices: bijection, parent/child/octant, interaction and neighbour lists as multisets with position codes, per-cell and per-group builders with both filters.", "3/C11"),
  "C12": ("property-based testing over generated execute() histories (ordered flag partitions x working level) with per-call write-set and operator oracles",
          "Staged histories must only run the requested operators at working levels, write only their outputs, and end in the state of one full run and of the model.", "3/C12"),
  "C16": ("property-based testing: lookup results against a definitional Morton model, exhaustive index ranges on small levels",
